@@ -103,6 +103,8 @@ type IssuedCheck struct {
 	Raw    []byte
 	Issuer int
 	Pass   int
+	// OddLock: the lock is not a 65-byte signature of the passphrase key (hostile input)
+	OddLock bool
 }
 
 // NewGen creates a generator bound to a node.
@@ -591,6 +593,9 @@ func (g *Gen) build(t *rapid.T, kind string) *spec {
 		head := Bip(1000)
 		if ok {
 			head = new(big.Int).Sub(B(c.MaxSupply), B(c.Volume))
+			if head.Sign() < 0 {
+				head = new(big.Int) // (volume above the maximal supply is C02's subject, not the generator's)
+			}
 			if c.OwnerAddress != nil && U(t, "mbAsOwner", 5) != 0 {
 				if o := g.userByAddr(*c.OwnerAddress); o != nil {
 					s.sender = o
@@ -1134,7 +1139,7 @@ func (g *Gen) IssueCheck(t *rapid.T) *IssuedCheck {
 		if err != nil {
 			panic(err)
 		}
-		ic = &IssuedCheck{Check: c, Raw: raw}
+		ic = &IssuedCheck{Check: c, Raw: raw, OddLock: true}
 	}
 	ic.Issuer, ic.Pass = issuer, pass
 	g.Checks = append(g.Checks, ic)
